@@ -9,6 +9,7 @@ import (
 	"strings"
 
 	"golang.org/x/sync/semaphore"
+	"sync"
 )
 
 // DatatypeManager manages Orda datatypes regarding operations
@@ -17,6 +18,7 @@ type DatatypeManager struct {
 	syncManager *SyncManager
 	sema        *semaphore.Weighted
 	dataMap     map[string]iface.Datatype
+	gaveUp      sync.Map // datatypes whose realtime delivery found the semaphore taken: its holder delivers them
 }
 
 // NewDatatypeManager creates a new instance of DatatypeManager
@@ -38,11 +40,17 @@ func (its *DatatypeManager) DeliverTransaction(wired iface.WiredDatatype) {
 	if its.ctx.Client.SyncType == model.SyncType_REALTIME {
 		go func() {
 			if !its.sema.TryAcquire(1) {
-
-				return
+				// A delivery that carries no operation (the request of a Subscribe) is not found again by NeedPush():
+				// leave a note for the holder, and look once more in case it released in between.
+				its.gaveUp.Store(wired, true)
+				if !its.sema.TryAcquire(1) {
+					return
+				}
+				its.gaveUp.Delete(wired)
 			}
 			defer func() {
 				its.sema.Release(1)
+				defer its.deliverGivenUp()
 				if wired.NeedPush() {
 					its.ctx.L().Infof("deliver transaction after delivering")
 					its.DeliverTransaction(wired)
@@ -60,6 +68,17 @@ func (its *DatatypeManager) DeliverTransaction(wired iface.WiredDatatype) {
 			}
 		}()
 	}
+}
+
+// deliverGivenUp delivers the datatypes whose delivery gave up while the caller held the semaphore.
+func (its *DatatypeManager) deliverGivenUp() {
+	its.gaveUp.Range(func(key, _ interface{}) bool {
+		its.gaveUp.Delete(key)
+		if wired, ok := key.(iface.WiredDatatype); ok {
+			its.DeliverTransaction(wired)
+		}
+		return true
+	})
 }
 
 // ExistDatatype returns the datatype if the specified key and type
@@ -106,6 +125,7 @@ func (its *DatatypeManager) SyncAll() errors.OrdaError {
 	}
 	defer func() {
 		its.sema.Release(1)
+		defer its.deliverGivenUp()
 		// a realtime delivery that found the semaphore taken by this call gave up and relies on the holder to look again
 		if its.ctx.Client.SyncType == model.SyncType_REALTIME {
 			for _, data := range its.dataMap {
@@ -152,6 +172,7 @@ func (its *DatatypeManager) OnChangeDatatypeState(dt iface.Datatype, state model
 					}
 					defer func() {
 						its.sema.Release(1)
+						defer its.deliverGivenUp()
 						for _, data := range its.dataMap { // deliveries that found the semaphore taken gave up
 							if data.NeedPush() {
 								its.DeliverTransaction(data)
